@@ -11,282 +11,7 @@ verus! {
 //@item nervusdb-api/src/lib.rs enum PropertyValue
 //@item nervusdb-api/src/lib.rs enum DecodeError
 
-// ------------------------------------------------------------------ abstract values and the format
-/// Mathematical content of a value: floats as bit patterns (so NaN payloads and signed zeros are
-/// distinguished), strings as their UTF-8 bytes, lists as sequences.  Maps are opaque (not decided).
-pub enum SV {
-    Null, Bool(bool), Int(i64), Float(u64), Str(Seq<u8>), DateTime(i64), Blob(Seq<u8>), List(Seq<SV>), Map,
-}
-
-pub open spec fn abs(v: PropertyValue) -> SV
-    decreases v
-{
-    match v {
-        PropertyValue::Null => SV::Null,
-        PropertyValue::Bool(b) => SV::Bool(b),
-        PropertyValue::Int(i) => SV::Int(i),
-        PropertyValue::Float(f) => SV::Float(f64_bits(f)),
-        PropertyValue::String(s) => SV::Str(str_bytes(s@)),
-        PropertyValue::DateTime(i) => SV::DateTime(i),
-        PropertyValue::Blob(b) => SV::Blob(b@),
-        PropertyValue::List(l) => SV::List(Seq::new(l@.len(), |i: int| if 0 <= i < l@.len() { abs(l@[i]) } else { SV::Null })),
-        PropertyValue::Map(_) => SV::Map,
-    }
-}
-
-/// Values the encoder accepts without panicking and whose round trip is decided here.
-pub open spec fn sv_ok(v: SV) -> bool
-    decreases v
-{
-    match v {
-        SV::Str(s) => s.len() <= u32::MAX && is_utf8(s),
-        SV::Blob(b) => b.len() <= u32::MAX,
-        SV::List(l) => l.len() <= u32::MAX && forall|i: int| 0 <= i < l.len() ==> sv_ok(#[trigger] l[i]),
-        SV::Map => false,
-        _ => true,
-    }
-}
-
-/// The storage format, written from the format description (tag byte, little-endian fixed-width
-/// numbers, u32 length prefixes, list = count + concatenated items).
-pub open spec fn sv_enc(v: SV) -> Seq<u8>
-    decreases v
-{
-    match v {
-        SV::Null => seq![0u8],
-        SV::Bool(b) => seq![1u8, if b { 1u8 } else { 0u8 }],
-        SV::Int(i) => seq![2u8] + le64(i as u64),
-        SV::Float(bits) => seq![3u8] + le64(bits),
-        SV::Str(s) => seq![4u8] + le32(s.len() as u32) + s,
-        SV::DateTime(i) => seq![5u8] + le64(i as u64),
-        SV::Blob(b) => seq![6u8] + le32(b.len() as u32) + b,
-        SV::List(l) => seq![7u8] + le32(l.len() as u32) + sv_enc_list(l),
-        SV::Map => seq![8u8],
-    }
-}
-pub open spec fn sv_enc_list(l: Seq<SV>) -> Seq<u8>
-    decreases l
-{
-    if l.len() == 0 { Seq::<u8>::empty() } else { sv_enc_list(l.drop_last()) + sv_enc(l.last()) }
-}
-
-/// Reference decoder (spec level): what a correct decoder must return on `b`.  None on malformed
-/// input and on maps (maps are not decided).
-pub open spec fn sv_dec(b: Seq<u8>) -> Option<(SV, nat)>
-    decreases b.len(), 1nat, 0nat
-{
-    if b.len() == 0 { None }
-    else if b[0] == 0 { Some((SV::Null, 1nat)) }
-    else if b[0] == 1 { if b.len() < 2 { None } else { Some((SV::Bool(b[1] != 0), 2nat)) } }
-    else if b[0] == 2 { if b.len() < 9 { None } else { Some((SV::Int(from_le64(b.subrange(1, 9)) as i64), 9nat)) } }
-    else if b[0] == 3 { if b.len() < 9 { None } else { Some((SV::Float(from_le64(b.subrange(1, 9))), 9nat)) } }
-    else if b[0] == 5 { if b.len() < 9 { None } else { Some((SV::DateTime(from_le64(b.subrange(1, 9)) as i64), 9nat)) } }
-    else if b[0] == 4 || b[0] == 6 {
-        if b.len() < 5 { None } else {
-            let len = from_le32(b.subrange(1, 5)) as nat;
-            if b.len() < 5 + len { None } else {
-                let body = b.subrange(5, 5 + len as int);
-                if b[0] == 6 { Some((SV::Blob(body), 5 + len)) }
-                else if is_utf8(body) { Some((SV::Str(body), 5 + len)) } else { None }
-            }
-        }
-    }
-    else if b[0] == 7 {
-        if b.len() < 5 { None } else {
-            let count = from_le32(b.subrange(1, 5)) as nat;
-            match sv_dec_list(b, 5, count) {
-                Some((items, end)) => Some((SV::List(items), end)),
-                None => None,
-            }
-        }
-    }
-    else { None }
-}
-/// Decode `n` consecutive values of `b` starting at `pos`.
-pub open spec fn sv_dec_list(b: Seq<u8>, pos: nat, n: nat) -> Option<(Seq<SV>, nat)>
-    decreases b.len(), 0nat, n
-{
-    if n == 0 { Some((Seq::<SV>::empty(), pos)) }
-    else {
-        match sv_dec_list(b, pos, (n - 1) as nat) {
-            None => None,
-            Some((items, p)) => {
-                if p < 1 || p > b.len() { None } else {
-                    match sv_dec(b.skip(p as int)) {
-                        None => None,
-                        Some((v, c)) => Some((items.push(v), p + c)),
-                    }
-                }
-            }
-        }
-    }
-}
-
-pub open spec fn abs_seq(s: Seq<PropertyValue>) -> Seq<SV> {
-    Seq::new(s.len(), |i: int| if 0 <= i < s.len() { abs(s[i]) } else { SV::Null })
-}
-
-// ------------------------------------------------------------------ format lemmas (spec level only)
-pub proof fn lemma_dec_list_prefix(b: Seq<u8>, pos: nat, n: nat, k: nat)
-    requires sv_dec_list(b, pos, n) is Some, k <= n,
-    ensures sv_dec_list(b, pos, k) is Some,
-    decreases n - k
-{
-    if k < n {
-        assert(sv_dec_list(b, pos, (n - 1) as nat) is Some);
-        lemma_dec_list_prefix(b, pos, (n - 1) as nat, k);
-    }
-}
-
-pub proof fn lemma_enc_len(v: SV)
-    requires sv_ok(v),
-    ensures sv_enc(v).len() >= 1,
-    decreases v
-{
-    lemma_le32_roundtrip(0); lemma_le64_roundtrip(0);
-}
-
-pub proof fn lemma_dec_consumes(b: Seq<u8>)
-    ensures sv_dec(b) is Some ==> 1 <= sv_dec(b)->Some_0.1 <= b.len(),
-    decreases b.len(), 1nat, 0nat
-{
-    if b.len() > 0 && b[0] == 7 && b.len() >= 5 {
-        lemma_dec_list_consumes(b, 5, from_le32(b.subrange(1, 5)) as nat);
-    }
-}
-pub proof fn lemma_dec_list_consumes(b: Seq<u8>, pos: nat, n: nat)
-    requires pos <= b.len(),
-    ensures sv_dec_list(b, pos, n) is Some ==> pos <= sv_dec_list(b, pos, n)->Some_0.1 <= b.len()
-        && sv_dec_list(b, pos, n)->Some_0.0.len() == n,
-    decreases b.len(), 0nat, n
-{
-    if n > 0 {
-        lemma_dec_list_consumes(b, pos, (n - 1) as nat);
-        match sv_dec_list(b, pos, (n - 1) as nat) {
-            None => {}
-            Some((items, p)) => {
-                if p >= 1 && p <= b.len() {
-                    lemma_dec_consumes(b.skip(p as int));
-                }
-            }
-        }
-    }
-}
-
-/// C25.val.roundtrip (spec level): the reference decoder inverts the format on every accepted
-/// value, whatever bytes follow.
-pub proof fn lemma_roundtrip(v: SV, rest: Seq<u8>)
-    requires sv_ok(v),
-    ensures sv_dec(sv_enc(v) + rest) == Some((v, sv_enc(v).len())),
-    decreases v, 1nat
-{
-    let b = sv_enc(v) + rest;
-    match v {
-        SV::Null => { assert(b[0] == 0); }
-        SV::Bool(x) => { assert(b[0] == 1); assert(b[1] == if x { 1u8 } else { 0u8 }); }
-        SV::Int(i) => {
-            lemma_le64_roundtrip(i as u64);
-            assert(b[0] == 2);
-            assert(b.subrange(1, 9) =~= le64(i as u64));
-            assert((i as u64) as i64 == i) by (bit_vector);
-        }
-        SV::DateTime(i) => {
-            lemma_le64_roundtrip(i as u64);
-            assert(b[0] == 5);
-            assert(b.subrange(1, 9) =~= le64(i as u64));
-            assert((i as u64) as i64 == i) by (bit_vector);
-        }
-        SV::Float(bits) => {
-            lemma_le64_roundtrip(bits);
-            assert(b[0] == 3);
-            assert(b.subrange(1, 9) =~= le64(bits));
-        }
-        SV::Str(s) => {
-            lemma_le32_roundtrip(s.len() as u32);
-            assert(b[0] == 4);
-            assert(b.subrange(1, 5) =~= le32(s.len() as u32));
-            assert(b.subrange(5, 5 + s.len() as int) =~= s);
-        }
-        SV::Blob(s) => {
-            lemma_le32_roundtrip(s.len() as u32);
-            assert(b[0] == 6);
-            assert(b.subrange(1, 5) =~= le32(s.len() as u32));
-            assert(b.subrange(5, 5 + s.len() as int) =~= s);
-        }
-        SV::List(l) => {
-            lemma_le32_roundtrip(l.len() as u32);
-            assert(b[0] == 7);
-            assert(b.subrange(1, 5) =~= le32(l.len() as u32));
-            assert(b =~= (seq![7u8] + le32(l.len() as u32)) + sv_enc_list(l) + rest);
-            lemma_roundtrip_list(v, seq![7u8] + le32(l.len() as u32), l.len() as nat, rest);
-            assert(l.take(l.len() as int) =~= l);
-        }
-        SV::Map => {}
-    }
-}
-/// After the 5-byte list header `hdr`, decoding k items yields the first k items and stops where
-/// their encodings end.
-pub proof fn lemma_roundtrip_list(v: SV, hdr: Seq<u8>, k: nat, rest: Seq<u8>)
-    requires v is List, sv_ok(v), hdr.len() == 5, k <= v->List_0.len(),
-    ensures sv_dec_list(hdr + sv_enc_list(v->List_0) + rest, 5, k)
-        == Some((v->List_0.take(k as int), 5 + sv_enc_list(v->List_0.take(k as int)).len())),
-    decreases v, 0nat, k
-{
-    let l = v->List_0;
-    let b = hdr + sv_enc_list(l) + rest;
-    if k == 0 {
-        assert(l.take(0) =~= Seq::<SV>::empty());
-    } else {
-        lemma_roundtrip_list(v, hdr, (k - 1) as nat, rest);
-        let done = l.take(k - 1);
-        let p = 5 + sv_enc_list(done).len();
-        let item = l[k - 1];
-        assert(sv_ok(item));
-        lemma_enc_list_split(l, k as int);
-        // b.skip(p) == sv_enc(item) + (encodings of the remaining items + rest)
-        let tail = sv_enc_list_from(l, k as int) + rest;
-        assert(b.skip(p as int) =~= sv_enc(item) + tail) by {
-            lemma_enc_list_split_all(l, k as int);
-            assert(l.take(k as int).drop_last() =~= done);
-            assert(l.take(k as int).last() == item);
-        }
-        lemma_roundtrip(item, tail);
-        lemma_enc_len(item);
-        lemma_enc_list_split_all(l, k - 1);
-        assert(l.take(k as int) =~= done.push(item));
-        assert(l.take(k as int).drop_last() =~= done);
-        assert(p >= 1 && p <= b.len());
-    }
-}
-/// encodings of items k.. of l, concatenated
-pub open spec fn sv_enc_list_from(l: Seq<SV>, k: int) -> Seq<u8>
-    decreases l.len() - k
-{
-    if k < 0 || k >= l.len() { Seq::<u8>::empty() } else { sv_enc(l[k]) + sv_enc_list_from(l, k + 1) }
-}
-pub proof fn lemma_enc_list_split(l: Seq<SV>, k: int)
-    requires 1 <= k <= l.len(),
-    ensures sv_enc_list(l.take(k)) == sv_enc_list(l.take(k - 1)) + sv_enc(l[k - 1]),
-{
-    assert(l.take(k).drop_last() =~= l.take(k - 1));
-    assert(l.take(k).last() == l[k - 1]);
-}
-pub proof fn lemma_enc_list_split_all(l: Seq<SV>, k: int)
-    requires 0 <= k <= l.len(),
-    ensures sv_enc_list(l) == sv_enc_list(l.take(k)) + sv_enc_list_from(l, k),
-    decreases l.len() - k
-{
-    if k == l.len() {
-        assert(l.take(k) =~= l);
-        assert(sv_enc_list_from(l, k) =~= Seq::<u8>::empty());
-        assert(sv_enc_list(l) =~= sv_enc_list(l) + Seq::<u8>::empty());
-    } else {
-        lemma_enc_list_split_all(l, k + 1);
-        lemma_enc_list_split(l, k + 1);
-        assert(sv_enc_list(l.take(k)) + (sv_enc(l[k]) + sv_enc_list_from(l, k + 1))
-            =~= (sv_enc_list(l.take(k)) + sv_enc(l[k])) + sv_enc_list_from(l, k + 1));
-    }
-}
+//@include _value_spec.rs
 
 // ------------------------------------------------------------------ the real encoder / decoder
 impl PropertyValue {
@@ -299,8 +24,6 @@ impl PropertyValue {
 //@rewrite "f.to_le_bytes()" => "v_f64_to_le_bytes(*f)"
 //@rewrite "k_len.to_le_bytes()" => "v_u32_to_le_bytes(k_len)"
 //@rewrite "len.to_le_bytes()" => "v_u32_to_le_bytes(len)"
-//@rewrite "s.as_bytes()" => "v_str_as_bytes(s)"
-//@rewrite "k.as_bytes()" => "v_str_as_bytes(k)"
 //@rewrite "in it2: m " => "in it2: m.iter() "
 //@loop 1 iter it1
 //@| invariant *self == PropertyValue::List(*l), sv_ok(abs(*self)), len == l@.len(),
@@ -341,7 +64,6 @@ impl PropertyValue {
 //@|   r is Ok ==> 1 <= r->Ok_0.1 <= bytes@.len(),
 //@|   sv_dec(bytes@) is Some ==> r is Ok && abs(r->Ok_0.0) == sv_dec(bytes@)->Some_0.0 && r->Ok_0.1 == sv_dec(bytes@)->Some_0.1,
 //@| decreases bytes@.len(),
-//@rewrite "String::from_utf8(" => "v_string_from_utf8("
 //@rewrite "Vec::with_capacity(" => "v_vec_with_capacity(Ghost(bytes@.len()), "
 //@rewrite "bytes.len()" => "v_slice_len(bytes)"
 //@rewrite "count.min(" => "v_usize_min(count, "
